@@ -126,6 +126,62 @@ fn scan(codec: &str, text: &[char]) -> Value {
     }
 }
 
+/// The same text through the string-token scanner (`IterScanner`, used by
+/// the `scan`/from-string paths of the record data types), tokens of two
+/// characters.
+fn iscan(codec: &str, text: &[char]) -> Value {
+    use domain::base::rdata::ComposeRecordData;
+    use domain::base::scan::IterScanner;
+    use domain::rdata::{Ds, Nsec3, Openpgpkey};
+    let mut toks: Vec<String> = vec![];
+    for (i, c) in text.iter().enumerate() {
+        if codec == "b32" {
+            if i == 0 { toks.push(String::new()); }
+        } else if i % 2 == 0 {
+            toks.push(String::new());
+        }
+        toks.last_mut().unwrap().push(*c);
+    }
+    let mut rd = Vec::new();
+    match codec {
+        "b16" => {
+            let mut all = vec!["1".to_string(), "8".into(), "2".into()];
+            all.extend(toks);
+            let mut sc = IterScanner::<_, Vec<u8>>::new(all);
+            match Ds::scan(&mut sc) {
+                Ok(v) if sc.is_exhausted() => {
+                    v.compose_rdata(&mut rd).unwrap();
+                    json!({"ok": json_bytes(&rd[4..])})
+                }
+                _ => json!({"err": true}),
+            }
+        }
+        "b32" => {
+            let mut all = vec!["1".to_string(), "0".into(), "0".into(), "-".into()];
+            all.extend(toks);
+            all.push("A".into());
+            let mut sc = IterScanner::<_, Vec<u8>>::new(all);
+            match Nsec3::scan(&mut sc) {
+                Ok(v) if sc.is_exhausted() => {
+                    v.compose_rdata(&mut rd).unwrap();
+                    json!({"ok": json_bytes(&rd[6..rd.len() - 3])})
+                }
+                _ => json!({"err": true}),
+            }
+        }
+        _ => {
+            let mut sc = IterScanner::<_, Vec<u8>>::new(toks);
+            match Openpgpkey::scan(&mut sc) {
+                Ok(v) if sc.is_exhausted() => {
+                    v.compose_rdata(&mut rd).unwrap();
+                    json!({"ok": json_bytes(&rd)})
+                }
+                _ => json!({"err": true}),
+            }
+        }
+    }
+}
+
 fn encode(codec: &str, o: &[u8]) -> Value {
     let (a, b, c) = match codec {
         "b16" => {
@@ -163,6 +219,7 @@ fn main() {
                        "conv": conv(&codec, &chars), "sticky": sticky});
                 if input["scan"].as_bool() == Some(true) {
                     o["scan"] = scan(&codec, &chars);
+                    o["iscan"] = iscan(&codec, &chars);
                 }
                 o
             }
